@@ -70,16 +70,27 @@ AllRecs == LET F(acc, i) == IF files[i].gone THEN acc ELSE acc \o SelectSeq(file
                RECURSIVE Go(_, _)
                Go(acc, i) == IF i > Len(files) THEN acc ELSE Go(F(acc, i), i + 1)
            IN Go(<<>>, 1)
-RECURSIVE Apply(_, _)
-Apply(st, rs) ==
-  IF rs = <<>> THEN st
+\* key/value part: the last committed record of every key decides - the last
+\* one in the last existing file that has one.  (Written on `files` directly
+\* and without recursion: TLC re-evaluates LET definitions and operator
+\* arguments at every use and keeps nested function constructors lazy, which
+\* makes a record-by-record fold over the flattened log exponential.)
+IsKV(r, k) == r.ok /\ r.k = k /\ r.kind \in {"put", "del"}
+PosIn(f, k) == {p \in 1..Len(files[f].recs) : IsKV(files[f].recs[p], k)}
+FilesOf(k) == {f \in 1..Len(files) : ~files[f].gone /\ PosIn(f, k) # {}}
+MaxOf(S) == CHOOSE x \in S : \A y \in S : y <= x
+LastRec(k) == LET f == MaxOf(FilesOf(k)) IN files[f].recs[MaxOf(PosIn(f, k))]
+DiskKV == [k \in {x \in Keys : FilesOf(x) # {} /\ LastRec(x).kind = "put"} |-> LastRec(k).v]
+\* list part: the operation records are applied in order
+RECURSIVE ApplyLs(_, _)
+ApplyLs(ls, rs) ==
+  IF rs = <<>> THEN ls
   ELSE LET r == Head(rs) IN
-       Apply(CASE r.kind = "put"  -> [st EXCEPT !.kv = [k \in DOMAIN st.kv \cup {r.k} |-> IF k = r.k THEN r.v ELSE st.kv[k]]]
-               [] r.kind = "del"  -> [st EXCEPT !.kv = [k \in DOMAIN st.kv \ {r.k} |-> st.kv[k]]]
-               [] r.kind = "push" -> [st EXCEPT !.ls = Append(@, r.v)]
-               [] r.kind = "pop"  -> [st EXCEPT !.ls = IF @ = <<>> THEN @ ELSE Tail(@)],
-             Tail(rs))
-ObsDisk == Apply([kv |-> <<>>, ls |-> <<>>], AllRecs)
+       ApplyLs(CASE r.kind = "push" -> Append(ls, r.v)
+                 [] r.kind = "pop"  -> (IF ls = <<>> THEN ls ELSE Tail(ls))
+                 [] OTHER -> ls,
+               Tail(rs))
+ObsDisk == [kv |-> DiskKV, ls |-> IF Lists THEN ApplyLs(<<>>, AllRecs) ELSE <<>>]
 
 -----------------------------------------------------------------------------
 Init ==
@@ -197,6 +208,10 @@ Agree == phase = "user" => ObsMem = ObsDisk
 MergePreserves == (phase = "after" /\ afterPut = <<>>) => (ObsMem = pre /\ ObsDisk = pre)
 \* C16: what a reopen serves after a crash inside Merge
 MergeCrashSafe == (phase = "down" /\ crashedIn \in {"merge", "rewrite", "remove"}) => ObsDisk = pre
+\* the same, stated on the running system: between any two steps of Merge the
+\* files on disk rebuild what was served when Merge started (this is the form
+\* MergeTrace.tla evaluates on the files the real Merge leaves behind)
+MidMergeSafe == phase \in {"merge", "rewrite", "remove"} => ObsDisk = pre
 \* C15: a write after Merge is on disk
 WriteDurable == (afterPut # <<>>) => (afterPut[1] \in DOMAIN ObsDisk.kv /\ ObsDisk.kv[afterPut[1]] = afterPut[2])
 TypeOK == active \in 1..Len(files) /\ phase \in {"user", "merge", "rewrite", "remove", "after", "down"}
